@@ -57,12 +57,23 @@ type ReusableWorkflowMetadataInput struct {
 	Type ExprType
 }
 
+// metadataBool is a boolean value in metadata of reusable workflow. It is true only when the value is a boolean
+// literal true. The value is false when it is ${{ }} expression, as the workflow parser handles it, since the value
+// cannot be determined statically.
+type metadataBool bool
+
+// UnmarshalYAML implements yaml.Unmarshaler.
+func (b *metadataBool) UnmarshalYAML(n *yaml.Node) error {
+	*b = metadataBool(n.Kind == yaml.ScalarNode && n.Tag == "!!bool" && strings.EqualFold(n.Value, "true"))
+	return nil
+}
+
 // UnmarshalYAML implements yaml.Unmarshaler.
 func (input *ReusableWorkflowMetadataInput) UnmarshalYAML(n *yaml.Node) error {
 	type metadata struct {
-		Required bool    `yaml:"required"`
-		Default  *string `yaml:"default"`
-		Type     string  `yaml:"type"`
+		Required metadataBool `yaml:"required"`
+		Default  *string      `yaml:"default"`
+		Type     string       `yaml:"type"`
 	}
 
 	var md metadata
@@ -70,7 +81,7 @@ func (input *ReusableWorkflowMetadataInput) UnmarshalYAML(n *yaml.Node) error {
 		return err
 	}
 
-	input.Required = md.Required && md.Default == nil
+	input.Required = bool(md.Required) && md.Default == nil
 	switch md.Type {
 	case "boolean":
 		input.Type = BoolType{}
@@ -138,11 +149,16 @@ func (secrets *ReusableWorkflowMetadataSecrets) UnmarshalYAML(n *yaml.Node) erro
 	for i := 0; i < len(n.Content); i += 2 {
 		k, v := n.Content[i], n.Content[i+1]
 
-		var s ReusableWorkflowMetadataSecret
-		if err := v.Decode(&s); err != nil {
+		var m struct {
+			Required metadataBool `yaml:"required"`
+		}
+		if err := v.Decode(&m); err != nil {
 			return err
 		}
-		s.Name = k.Value
+		s := ReusableWorkflowMetadataSecret{
+			Name:     k.Value,
+			Required: bool(m.Required),
+		}
 
 		md[strings.ToLower(k.Value)] = &s
 	}
